@@ -13,11 +13,24 @@ structure LBackup (β : Type) where
   name : String
   es : List (Entry β)
   stored : String → Bool
+  /-- what follows a stored file's content in its archive entry: the tar entry is as long as the size `fstat` announced,
+  the record describes the bytes actually read (`FileReader`, C15) - zeros when the file shrank while it was archived,
+  nothing otherwise (`padded`: only a non-empty content is followed by padding - a stored file that announced a
+  non-zero size and was then read as empty is not represented) -/
+  pad : String → List β
 
-/-- The archive entry written for a node: data only for files stored here. -/
-def stripE (stored : String → Bool) : Entry β → Entry β
-  | .file p m d => .file p m (if stored p then d else [])
+/-- The archive entry written for a node: data only for files stored here (followed by the padding, if any). -/
+def padded (pad : String → List β) (p : String) (d : List β) : List β := if d.isEmpty then [] else d ++ pad p
+
+def stripE (stored : String → Bool) (pad : String → List β) : Entry β → Entry β
+  | .file p m d => .file p m (if stored p then padded pad p d else [])
   | e => e
+
+theorem padded_eq (pad : String → List β) (p : String) (d : List β) : ∃ tail, padded pad p d = d ++ tail := by
+  unfold padded
+  split
+  · rename_i h; exact ⟨[], by simp [List.isEmpty_iff.mp h]⟩
+  · exact ⟨pad p, rfl⟩
 
 /-- The manifest line written for a file: `unique` iff non-empty and stored here. -/
 def recG (hashOf : List β → H) (stored : String → Bool) : Entry β → Option (MRec H)
@@ -25,7 +38,7 @@ def recG (hashOf : List β → H) (stored : String → Bool) : Entry β → Opti
   | _ => none
 
 def render (hashOf : List β → H) (lb : LBackup β) : Backup H β :=
-  ⟨lb.name, some (lb.es.filterMap (recG hashOf lb.stored)), lb.es.map (stripE lb.stored), true⟩
+  ⟨lb.name, some (lb.es.filterMap (recG hashOf lb.stored)), lb.es.map (stripE lb.stored lb.pad), true⟩
 
 /-- A file whose record is `own` for the restore plan: empty, or stored here. -/
 def isOwnE (stored : String → Bool) : Entry β → Bool
@@ -53,14 +66,21 @@ def logicalOf (contentOf : H → Nat → Option (List β)) (b : Backup H β) : O
   | some recs =>
     let keyOfTar : String → String := fun p => keyOf ((tarPathToFile p).getD [])
     let stored : String → Bool := fun p => recs.any (fun (r : MRec H) => r.unique && r.path == keyOfTar p)
+    -- a stored entry may be longer than its record says (C15): the content is its first `size` bytes
+    let sizeOf : String → List β → Nat := fun p d => match recs.find? (fun (r : MRec H) => r.unique && r.path == keyOfTar p) with
+      | some r => r.size
+      | none => d.length
+    let pad : String → List β := fun p => match b.archive.find? (fun e => match e with | .file q _ _ => q == p | _ => false) with
+      | some (.file _ _ d) => d.drop (sizeOf p d)
+      | _ => []
     let es := b.archive.mapM (fun e => match e with
       | .file p m d =>
-        if stored p then some (Entry.file p m d)
+        if stored p then some (Entry.file p m (d.take (sizeOf p d)))
         else match recs.find? (fun (r : MRec H) => r.path == keyOfTar p) with
           | some r => if r.size = 0 then some (Entry.file p m []) else (contentOf r.hash r.size).map (fun c => Entry.file p m c)
           | none => none
       | e => some e)
-    es.map (fun es => ⟨b.name, es, stored⟩)
+    es.map (fun es => ⟨b.name, es, stored, pad⟩)
 
 def backupEq [DecidableEq β] (a b : Backup H β) : Bool :=
   a.name == b.name && decide (a.manifest = b.manifest) && decide (a.archive = b.archive) && a.archiveComplete == b.archiveComplete
